@@ -1011,8 +1011,8 @@ def body_no_doc(fn: ast.FunctionDef) -> list[ast.stmt]:
 
 
 def str_list(node: ast.expr, what: str) -> list[str]:
-    if not isinstance(node, ast.List) or not all(isinstance(e, ast.Constant) and isinstance(e.value, str) for e in node.elts):
-        raise Unsupported(f"{what}: expected a list of string literals")
+    if not isinstance(node, (ast.List, ast.Tuple)) or not all(isinstance(e, ast.Constant) and isinstance(e.value, str) for e in node.elts):
+        raise Unsupported(f"{what}: expected a list / tuple of string literals")
     return [e.value for e in node.elts]  # type: ignore[attr-defined]
 
 
@@ -1171,7 +1171,7 @@ def _top_assign(stmts: list[ast.stmt], pred, what: str) -> tuple[int, str]:
     return i, tgt.id
 
 
-def _crucial_lists(fn: ast.FunctionDef) -> tuple[list[str], list[str]]:
+def _crucial_lists(fn: ast.FunctionDef, module: ast.AST | None = None) -> tuple[list[str], list[str]]:
     """The metric lists whose NaN check guards the battery data resp. the inverter data of the returned pair.
 
     Roles: the function returns `InvBatPair(AggregatedBatteryData(B), I)`; before that, `if <check>(B, L1): return None`
@@ -1195,6 +1195,13 @@ def _crucial_lists(fn: ast.FunctionDef) -> tuple[list[str], list[str]]:
         if isinstance(n, ast.Name):
             defs = [x.value for x in ast.walk(fn) if isinstance(x, (ast.Assign, ast.AnnAssign)) and x.value is not None
                     and ast.unparse(x.targets[0] if isinstance(x, ast.Assign) else x.target) == n.id]
+            if not defs and module is not None and not any(
+                    isinstance(x, ast.Name) and x.id == n.id and isinstance(x.ctx, (ast.Store, ast.Del)) for x in ast.walk(fn)):
+                # a module-level constant (assigned once at top level, never rebound: no `global` statement names it)
+                defs = [x.value for x in getattr(module, "body", []) if isinstance(x, (ast.Assign, ast.AnnAssign)) and x.value is not None
+                        and ast.unparse(x.targets[0] if isinstance(x, ast.Assign) else x.target) == n.id]
+                if any(isinstance(g, ast.Global) and n.id in g.names for g in ast.walk(module)):
+                    defs = []
             if len(defs) != 1:
                 raise Unsupported(f"_get_battery_inverter_data: `{n.id}` is not assigned exactly once")
             n = defs[0]
@@ -1261,7 +1268,7 @@ def gen_manager(repo: pathlib.Path) -> str:
     out += ("/-- tail of `BatteryManager._check_request` (after the id checks): `true` = answered with `OutOfBounds` -/\n"
             f"def checkRequest (bounds : PowerBounds) (power : Rat) (adjust_power : Bool) : Bool :=\n{body}\n\n")
     # ---- crucial metrics
-    bat, inv = _crucial_lists(find_func(cls, "_get_battery_inverter_data"))
+    bat, inv = _crucial_lists(find_func(cls, "_get_battery_inverter_data"), tree)
     out += ("/-- `_get_battery_inverter_data`: a NaN in one of these drops the whole battery set -/\n"
             f"def crucialMetricsBat : List String := {lean_strs(bat)}\n"
             f"def crucialMetricsInv : List String := {lean_strs(inv)}\n")
@@ -1480,7 +1487,9 @@ def gen_sample_calc(tree: ast.Module, cls: str, order: list[str], prefix: str, v
     for absent in _subsets(order):
         t = translator(absent, None).tree(body, start(), Exits(fall=leaf("state"), cont=leaf("skip")))
         init = tuple(cn for _, cn in named)
-        if not (t[0] == "leaf" and t[1][0] == "skip" and t[1][1] == init and not t[1][3]):
+        # skipped by `continue`, or by falling through nested `if`s: either way every running value and the sample time
+        # are left as they were
+        if not (t[0] == "leaf" and t[1][0] in ("skip", "state") and t[1][1] == init and not t[1][3]):
             raise Unsupported(f"{what}: a battery without {sorted(absent)} is not skipped untouched")
     params = [m.lower() for m in order]
     canon = [cn for _, cn in named]
@@ -1944,7 +1953,8 @@ def gen_stream(repo: pathlib.Path) -> str:
 
     al = aliases(fn)
     sets = [n for n in ast.walk(fn) if isinstance(n, ast.If)
-            and any(isinstance(x, ast.Call) and src(x.func, al) == "self._update_event.set" for b in n.body for x in ast.walk(b))]
+            and any(isinstance(b, ast.Expr) and isinstance(b.value, ast.Call) and src(b.value.func, al) == "self._update_event.set"
+                    for b in n.body)]  # the `if` that guards the call directly (not the ones it is nested in)
     if len(sets) != 1 or sets[0].orelse:
         raise Unsupported("SendOnUpdate._update_and_notify: expected exactly one `if <changed>: self._update_event.set()`")
     test = sets[0].test
